@@ -63,10 +63,10 @@ class Accessor:
         if obj is None:
             return self._accessor
 
-        accessor_obj = self._accessor(obj)
-        setattr(obj, self._name, accessor_obj)
-
-        return accessor_obj
+        # The namespace object must not be cached on the expression: `copy.copy`
+        # (`map_subtree`, cloning) would carry the cached namespace over to the copy,
+        # where it still points at the original expression.
+        return self._accessor(obj)
 
 
 def register_accessor(name):
